@@ -3,6 +3,8 @@ import AJ.Model.DL
 import AJ.Model.Conv
 import AJ.Model.JSer
 import AJ.Model.MD
+import AJ.Model.JDD
+import AJ.Model.MDD
 namespace DH
 open DL JD
 
@@ -97,6 +99,21 @@ def valueSlotsF (d : Doc) : Nat → VData → List Nat
     vs ++ vs.flatMap (fun i => valueSlotsF d f (d.get (.slot i)))
   | _ + 1, _ => []
 
+/-- deserj / deserm <ref> <limit> <hex>: deserializeJson / deserializeMsgPack into the value a reference designates -/
+def deserInto (w : W) (json : Bool) (r lim hex : String) : String × W :=
+  let codeName (c : JD.Code) : String := match c with
+    | .ok => "Ok" | .empty => "EmptyInput" | .incomplete => "IncompleteInput" | .invalid => "InvalidInput"
+    | .noMemory => "NoMemory" | .tooDeep => "TooDeep" | .fuel => "FAULT"
+  let s := w.refs[r.toNat!]!
+  match s.doc, s.loc with
+  | some di, some l =>
+    let d := w.docs[di]!
+    let input := unhex hex
+    let (c, d', _) := if json then JDD.runAt {} lim.toNat! d l input
+                      else MDD.runAt { maxStrLen := Gen.string_max_length } lim.toNat! d l input
+    (codeName c, { w with docs := w.docs.set! di d' })
+  | _, _ => ("NoMemory", w)           -- an unbound reference has no data to deserialize into
+
 def step (w : W) (ws : List String) : String × W :=
   match ws with
   | "obs" :: rs =>
@@ -107,6 +124,8 @@ def step (w : W) (ws : List String) : String × W :=
       | some di, some l => let d : Doc := w.docs[di]!; s!"r{r}={d.show (d.get l)} z={d.size (d.get l)} n={d.nesting (d.get l)} "
       | _, _ => s!"r{r}=? z=0 n=0 ")
     (String.join ds ++ String.join rs, w)
+  | ["deserj", r, lim, hex] => deserInto w true r lim hex
+  | ["deserm", r, lim, hex] => deserInto w false r lim hex
   | ["failat", d, k] =>
     let di := d.toNat!; let doc : Doc := w.docs[di]!
     ("", { w with docs := w.docs.set! di { doc with pl := { doc.pl with failAt := (doc.pl.calls + k.toNat!) :: doc.pl.failAt } } })
